@@ -394,7 +394,121 @@ func (fb *formulaBuilder) timeOrd(a ssa.Value, rel string, b ssa.Value) BExpr {
 	return mkOrd(fb.term(a), rel, fb.term(b))
 }
 
+// affixTest recognises a prefix or suffix test however it is written: the library call
+// (strings|bytes).Has(Prefix|Suffix)(s, p), or the comparison s[:len(p)] == p / s[len(s)-len(p):] == p
+// (p a constant of that length or any value; the length guard that goes with the hand-written
+// form is a separate comparison). kind is "HasPrefix" or "HasSuffix".
+func affixTest(v ssa.Value) (kind string, s, p ssa.Value, ok bool) {
+	v = strip(v)
+	if cl, isCall := v.(*ssa.Call); isCall {
+		switch calleeName(&cl.Call) {
+		case "strings.HasPrefix", "bytes.HasPrefix":
+			return "HasPrefix", cl.Call.Args[0], cl.Call.Args[1], true
+		case "strings.HasSuffix", "bytes.HasSuffix":
+			return "HasSuffix", cl.Call.Args[0], cl.Call.Args[1], true
+		}
+		return "", nil, nil, false
+	}
+	x, isB := v.(*ssa.BinOp)
+	if !isB || x.Op != token.EQL {
+		return "", nil, nil, false
+	}
+	for _, pair := range [][2]ssa.Value{{x.X, x.Y}, {x.Y, x.X}} {
+		sv := strip(pair[0])
+		if cv, ok := sv.(*ssa.Convert); ok {
+			sv = strip(cv.X)
+		}
+		sl, ok := sv.(*ssa.Slice)
+		if !ok {
+			continue
+		}
+		other := pair[1]
+		plen := "builtin:len(" + describe(other) + ")"
+		if k, isC := constOf(other); isC {
+			if c, isConst := strip(other).(*ssa.Const); isConst && c.Value != nil && c.Value.Kind() == constant.String {
+				plen = fmt.Sprint(len(k))
+			}
+		}
+		base := describe(sl.X)
+		low0 := sl.Low == nil
+		if n, isK := intConst(sl.Low); isK && n == 0 {
+			low0 = true
+		}
+		if sl.High != nil && low0 && describe(sl.High) == plen {
+			return "HasPrefix", sl.X, other, true
+		}
+		if sl.High == nil && sl.Low != nil {
+			d := describe(sl.Low)
+			if d == "(builtin:len("+base+") - "+plen+")" {
+				return "HasSuffix", sl.X, other, true
+			}
+		}
+	}
+	return "", nil, nil, false
+}
+
+// prefixTest: the atom name a hand-written affix test gets in formulas — that of the library call.
+func prefixTest(x *ssa.BinOp) (string, bool) {
+	if x.Op != token.EQL && x.Op != token.NEQ {
+		return "", false
+	}
+	y := *x
+	y.Op = token.EQL
+	kind, s, p, ok := affixTest2(&y)
+	if !ok {
+		return "", false
+	}
+	pkg, lit := "strings", describe(p)
+	if _, isBytes := s.Type().Underlying().(*types.Slice); isBytes {
+		pkg = "bytes"
+		if _, isC := constOf(p); isC {
+			lit = "conv<[]byte>(" + lit + ")"
+		}
+	}
+	return pkg + "." + kind + "(" + describe(s) + ", " + lit + ")", true
+}
+
+// affixTest2 is affixTest for a comparison that is not (yet) an instruction of the program.
+func affixTest2(x *ssa.BinOp) (string, ssa.Value, ssa.Value, bool) {
+	for _, pair := range [][2]ssa.Value{{x.X, x.Y}, {x.Y, x.X}} {
+		sv := strip(pair[0])
+		if cv, ok := sv.(*ssa.Convert); ok {
+			sv = strip(cv.X)
+		}
+		sl, ok := sv.(*ssa.Slice)
+		if !ok {
+			continue
+		}
+		other := pair[1]
+		plen := "builtin:len(" + describe(other) + ")"
+		if k, isC := constOf(other); isC {
+			if c, isConst := strip(other).(*ssa.Const); isConst && c.Value != nil && c.Value.Kind() == constant.String {
+				plen = fmt.Sprint(len(k))
+			}
+		}
+		base := describe(sl.X)
+		low0 := sl.Low == nil
+		if n, isK := intConst(sl.Low); isK && n == 0 {
+			low0 = true
+		}
+		if sl.High != nil && low0 && describe(sl.High) == plen {
+			return "HasPrefix", sl.X, other, true
+		}
+		if sl.High == nil && sl.Low != nil && describe(sl.Low) == "(builtin:len("+base+") - "+plen+")" {
+			return "HasSuffix", sl.X, other, true
+		}
+	}
+	return "", nil, nil, false
+}
+
 func (fb *formulaBuilder) compare(x *ssa.BinOp) BExpr {
+	if name, ok := prefixTest(x); ok {
+		var a BExpr = bBool{name}
+		if x.Op == token.NEQ {
+			a = bNot{a}
+		}
+		return a
+	}
 	// an operand merged from several exits (a result variable of an expanded helper): the
 	// comparison holds iff it holds for the value carried by the edge taken
 	for side, v := range []ssa.Value{x.X, x.Y} {
